@@ -76,65 +76,14 @@ def _mutations(db) -> Tuple[List[tuple], int]:
 
 
 def check_reencoding(db, chk, RULE):
-    tm = db.mod(TM)
-    # ---------------------------------------------------------------- R2 re-encoding composition
-    tm = db.mod(TM)
-    for q in ("Trace.parse_single_rank", "Trace.parse_multiple_ranks"):
-        f = tm.func(q)
-        where = tm.loc(f)
-        stores = [n for n in ast.walk(f) if isinstance(n, ast.Assign) and H.match("self.traces[rank][$c]", n.targets[0]) is not None]
-        ok = len(stores) == 1
-        det = [ast.unparse(s)[:160] for s in stores]
-        narrowing = [ast.unparse(c)[:100] for s in stores for c in ast.walk(s.value) if isinstance(c, ast.Call) and isinstance(c.func, ast.Attribute) and c.func.attr == "astype"]
-        gm_name = next((H.name_id(t) for t, v, s_ in H.assignments(f) if H.match("self.symbol_table.get_sym_id_map()", v) is not None), None)
-        lt_name = next((H.name_id(t) for t, v, s_ in H.assignments(f) if isinstance(v, ast.Call) and isinstance(v.func, ast.Attribute) and v.func.attr == "get_sym_table" and "local" in ast.unparse(v.func.value)), None)
-        if ok and gm_name and lt_name:
-            ok = any(H.match(f"self.traces[rank][$c] = self.traces[rank][$c].{meth}(lambda $i: {gm_name}[{lt_name}[$i]])", stores[0]) is not None for meth in ("apply", "map"))
-        else:
-            ok = False
-        if stores:
-            conds, jumps = [], []
-            cur = tm.parent.get(id(stores[0]))
-            loops_ = []
-            while cur is not None and cur is not f:
-                if isinstance(cur, (ast.If, ast.Try, ast.While)):
-                    # a guard that also encloses the parsing of that rank (nothing was loaded either) is not a skipped translation
-                    encloses_parse = any(isinstance(x, ast.Call) and (H.name_id(x.func) == "parse_trace_file" or (isinstance(x.func, ast.Attribute) and x.func.attr == "add_symbols")) for x in ast.walk(cur))
-                    if not encloses_parse:
-                        conds.append(ast.unparse(cur.test)[:80] if hasattr(cur, "test") else type(cur).__name__)
-                if isinstance(cur, ast.For):
-                    loops_.append(cur)
-                cur = tm.parent.get(id(cur))
-            for lp_ in loops_:
-                jumps += [type(x).__name__ for x in ast.walk(lp_) if isinstance(x, (ast.Continue, ast.Break)) and x.lineno < stores[0].lineno]
-            chk.ob(RULE, f"{q}: every rank's cat and name columns are re-encoded unconditionally (no guard, continue or break in front of the store)", not conds and not jumps, where,
-                   found={"conditions": conds, "jumps": jumps}, accepted="unconditional inside `for rank` / `for col`",
-                   why="skipping the translation when the tables merely have the same LENGTH leaves local ids that decode to other strings")
-        verdict = ok if ok or narrowing or not stores else None
-        chk.ob(RULE, f"{q}: new code of a cell = global_map[local_table[old code]] applied to the whole column, without a cast back to the old (narrow) dtype", verdict if not narrowing else False, where,
-               found=det + ([f"narrowing cast: {x}" for x in narrowing]), accepted="self.traces[rank][col] = self.traces[rank][col].apply(lambda idx: global_map[local_table[idx]])",
-               why="global ids can exceed the local column's small integer dtype: a cast back wraps silently and rows decode to other strings")
-        # local_table comes from the same rank's local table; global_map read after all add_symbols
-        lt = [(ast.unparse(v), s) for t, v, s in H.assignments(f) if H.name_id(t) == lt_name]
-        gm = [(ast.unparse(v), s) for t, v, s in H.assignments(f) if H.name_id(t) == gm_name]
-        adds = [c for c in ast.walk(f) if isinstance(c, ast.Call) and isinstance(c.func, ast.Attribute) and c.func.attr == "add_symbols"]
-        loc_single = next((H.name_id(t.elts[2]) for t, v, s_ in H.assignments(f) if isinstance(t, ast.Tuple) and len(t.elts) == 3 and isinstance(v, ast.Call) and H.name_id(v.func) == "parse_trace_file"), None)
-        loc_multi = next((ast.unparse(t.value) for t, v, s_ in H.assignments(f) if isinstance(t, ast.Subscript) and H.name_id(t.slice) == "rank" and "result" in ast.unparse(v) and "[2]" in ast.unparse(v)), "local_symbol_tables")
-        acc_lt = {f"{loc_multi}[rank].get_sym_table()"} | ({f"{loc_single}.get_sym_table()"} if loc_single else set())
-        ok_lt = len(lt) == 1 and lt[0][0] in acc_lt
-        ok_gm = len(gm) == 1 and gm[0][0] == "self.symbol_table.get_sym_id_map()" and adds and all(a.lineno < gm[0][1].lineno for a in adds)
-        chk.ob(RULE, f"{q}: the local table is the SAME rank's local table", ok_lt, where, found=[x[0] for x in lt], accepted="local_symbol_tables[rank].get_sym_table()")
-        chk.ob(RULE, f"{q}: the global map is read after every rank's symbols were added to the shared table", bool(ok_gm), where, found=[x[0] for x in gm] + [a.lineno for a in adds],
-               accepted="self.symbol_table.get_sym_id_map() after all add_symbols calls")
-        arg_ok = all(ast.unparse(a.args[0]) in acc_lt for a in adds)
-        chk.ob(RULE, f"{q}: the shared table is fed each rank's local symbols (in the rank's own id order)", arg_ok and bool(adds), where, found=[ast.unparse(a) for a in adds], accepted="self.symbol_table.add_symbols(<local table>.get_sym_table())")
-
+    """(decided on the final state of the symbolically evaluated loaders - see check_loader_semantics)"""
+    check_loader_semantics(db, chk, None, RULE)
 
 
 def check_rank_association(db, chk, rule: str) -> None:
     """shared by C01 (a rank's frame is the image of THAT rank's file) and C11 (schedule independence)"""
     tm = db.mod(TM)
-    f = tm.func("Trace.parse_multiple_ranks")
+    f = H.inline_helpers(tm, tm.func("Trace.parse_multiple_ranks"))
     where = tm.loc(f)
     pool_vars = {H.name_id(it.optional_vars) for w in ast.walk(f) if isinstance(w, ast.With) for it in w.items if "Pool(" in ast.unparse(it.context_expr) and it.optional_vars is not None}
     pool_vars |= {H.name_id(t) for t, v, s_ in H.assignments(f) if "Pool(" in ast.unparse(v)}
@@ -143,39 +92,7 @@ def check_rank_association(db, chk, rule: str) -> None:
     prims = sorted({c.func.attr for c in pool_calls})
     chk.ob(rule, "worker results are collected with an order-preserving primitive only", prims == ["map"], where, found=prims, accepted=["map"],
            why="imap_unordered / apply_async deliver in completion order: zip(ranks, results) would store one rank's frame, metadata and local table under another rank")
-    pm = [c for c in pool_calls if c.func.attr == "map"]
-    zips = [c for c in ast.walk(f) if isinstance(c, ast.Call) and H.name_id(c.func) == "zip"]
-    ok, tp, res_def = False, [], []
-    if len(pm) == 1 and len(pm[0].args) >= 2 and isinstance(pm[0].args[1], ast.Name):
-        paths_var = pm[0].args[1].id
-        tp = [v for t, v, s_ in H.assignments(f) if H.name_id(t) == paths_var]
-        res_vars = [H.name_id(t) for t, v, s_ in H.assignments(f) if v is pm[0]]
-        res_def = [ast.unparse(v) for t, v, s_ in H.assignments(f) if H.name_id(t) in res_vars]
-        ok = len(tp) == 1 and H.match("[self.trace_files[$r] for $r in ranks]", tp[0]) is not None and len(res_vars) == 1 and \
-            any([H.name_id(a) for a in z.args] == ["ranks", res_vars[0]] for z in zips)
-        tp = [ast.unparse(x) for x in tp]
-    chk.ob(rule, "results are paired with the rank list the inputs were built from, in the same order", ok and len(res_def) == 1, where, found={"trace_paths": tp, "results": res_def, "zip": [ast.unparse(z) for z in zips]},
-           accepted="trace_paths = [self.trace_files[rank] for rank in ranks]; results = pool.map(_parser, trace_paths, ...); zip(ranks, results)")
-    # sequential branch and parse_single_rank: file parsed = trace_files[<the rank the result is stored under>]
-    for q in ("Trace.parse_multiple_ranks", "Trace.parse_single_rank"):
-        g = tm.func(q)
-        for c in [c for c in ast.walk(g) if isinstance(c, ast.Call) and H.name_id(c.func) == "parse_trace_file"]:
-            tgts = [t for t, v, s_ in H.assignments(g) if v is c]
-            if not tgts:
-                continue          # the memory-profiling probe parses a file without keeping the result
-            arg = c.args[0] if c.args else None
-            mk = H.match("self.trace_files[$r]", H.expand(g, arg)) if arg is not None else None
-            is_store = lambda t: isinstance(t, ast.Subscript) and ast.unparse(t.value) in ("self.traces", "self.meta_data")
-            if isinstance(tgts[0], (ast.Tuple, ast.List)):
-                stores = [t for t in tgts[0].elts if is_store(t)]
-                res = "<tuple target>"
-            else:
-                res = H.name_id(tgts[0])
-                stores = [t for t, v, s_ in H.assignments(g) if is_store(t) and any(isinstance(n, ast.Name) and n.id == res for n in ast.walk(v))]
-            okk = (res is not None and len(stores) >= 2 and all(ast.unparse(t.slice) == mk["__mv_r"] for t in stores)) if mk is not None else None    # another way of naming the file: not understood
-            chk.ob(rule, f"{q}: the file parsed is trace_files[r] and its frame/metadata are stored under the same r", okk, tm.loc(c),
-                   found={"parsed": ast.unparse(arg) if arg is not None else None, "stored": [ast.unparse(t) for t in stores]}, accepted="parse_trace_file(self.trace_files[r], ...) -> self.traces[r], self.meta_data[r]")
-
+    check_loader_semantics(db, chk, rule, None)
 
 def id_truthiness_sites(db, modules=None):
     """(sites, number of lookups scanned): symbol-id lookups (`<sym_index / id map>.get(..)`, `<...>[..]`) standing in a boolean position -
@@ -253,7 +170,7 @@ def run(db, chk) -> None:
     chk.floor("C11.R2-re-encoding", 8)
     tm = db.mod(TM)
     # ---------------------------------------------------------------- R3 schedule independence
-    f = tm.func("Trace.parse_multiple_ranks")
+    f = H.inline_helpers(tm, tm.func("Trace.parse_multiple_ranks"))
     where = tm.loc(f)
     check_rank_association(db, chk, "C11.R3-ordered-collection")
     seq = [n for n in ast.walk(f) if isinstance(n, ast.For) and H.name_id(n.iter) == "ranks"]
@@ -402,3 +319,102 @@ def _derived_views(db, chk) -> None:
                 outside.append(f"{mod.name}:{q} {mod.loc(n)}")
     chk.ob(rule, "the views are private to the table class", not outside, st.loc(cls), found=outside, accepted="no access outside TraceSymbolTable")
     chk.floor(rule, 5)
+
+
+def check_loader_semantics(db, chk, rule_assoc: str, rule_reenc: str) -> None:
+    """The loaders (parse_multiple_ranks, sequential and pool branch; parse_single_rank) are evaluated symbolically for two ranks with
+    parse_trace_file abstracted to 'the frame / metadata / local table OF THAT FILE'.  Decided on the final state, whatever helpers the
+    code is split into: (association) rank r holds the frame and metadata of trace_files[r]; (re-encoding) its cat and name columns are
+    global_map[local_table_of_r[old id]] with the global map read after EVERY requested rank's symbols were added, on every path."""
+    from ..core.interp import Interp
+    from ..core import terms as T
+    from ..core.values import Frame, Obj, PyTuple, to_term
+    from ..specs.discipline import narrowing_casts
+    tm = db.mod(TM)
+    R0, R1 = T.P("RANK0"), T.P("RANK1")
+
+    def scenario(ref, make_args, ranks_paths, tag):
+        state = {"ver": 0, "adds": []}
+
+        def parse(path):
+            p = path if isinstance(path, str) else T.show(to_term(path))
+            return PyTuple([T.P(f"META:{p}"), Frame(("param", "TR", p), known=["cat", "name", "ts", "dur"]), Obj(f"LOCAL:{p}")])
+
+        def hook(I, name, pos, kw, node):
+            if name in ("parse_trace_file", "_parser"):
+                return parse(pos[0])
+            if name.endswith(".map") and len(pos) >= 2 and isinstance(pos[1], list):
+                return [parse(x) for x in pos[1]]
+            if name.endswith("get_sym_table"):
+                recv = I.eval(node.func.value)
+                if isinstance(recv, Obj) and recv.name.startswith("LOCAL:"):
+                    return T.P("LTAB:" + recv.name[6:])
+            if name.endswith("symbol_table.add_symbols"):
+                state["ver"] += 1
+                state["adds"].append(to_term(pos[0]) if pos else None)
+                return None
+            if name.endswith("symbol_table.get_sym_id_map"):
+                return T.P(f"GMAP@{state['ver']}")
+            return NotImplemented
+        I = Interp(db, call_hook=hook)
+
+        def args(I):
+            state["ver"], state["adds"] = 0, []
+            return make_args()
+        runs = I.explore(ref, args)
+        where = tm.loc(tm.func(ref.split(":")[1]))
+        good = [r for r in runs if r.raised is None]
+        if not good or len(runs) > 16:
+            chk.ob(rule_assoc or rule_reenc, f"{tag}: analysable paths", None, where, found={"paths": len(runs), "normal": len(good)})
+            return
+        nver = len(ranks_paths)
+        for r in good:
+            ptag = tag + (f" [when {T.show(r.cond())[:60]}]" if r.path else "")
+            s = r.env["self"]
+            for rk, p in ranks_paths:
+                f = s.attrs["traces"].get(rk) if isinstance(s.attrs.get("traces"), dict) else None
+                md = s.attrs["meta_data"].get(rk) if isinstance(s.attrs.get("meta_data"), dict) else None
+                base = ("param", "TR", p)
+                if rule_assoc:
+                  chk.ob(rule_assoc, f"{ptag}: {T.show(rk)} holds the frame and the metadata parsed from trace_files[{T.show(rk)}]", isinstance(f, Frame) and f.base == base and to_term(md) == T.P(f"META:{p}"), where,
+                       found={"frame": T.show(f.base) if isinstance(f, Frame) else repr(f)[:60], "meta": T.show(to_term(md))[:60]}, accepted={"frame": f"TR[{p}]", "meta": f"META:{p}"},
+                       why="results paired with another rank list (e.g. the dict order of trace_files) store one rank's frame under another rank")
+                if not isinstance(f, Frame) or not rule_reenc:
+                    continue
+                for c in ("cat", "name"):
+                    old = T.col(base, c)
+                    want = ("getitem", T.P(f"GMAP@{nver}"), ("getitem", T.P(f"LTAB:{p}"), old))
+                    got = f.col(c)
+                    if got == want:
+                        v = True
+                    elif got == old or narrowing_casts(got) or (isinstance(got, tuple) and got and got[0] == "astype") or \
+                            any(isinstance(x, tuple) and x and x[0] == "param" and str(x[1]).startswith(("GMAP@", "LTAB:")) and x not in (want[1], want[2][1]) for x in T.subterms(got)):
+                        v = False          # untranslated, cast back, another rank's local table, or a global map read before all ranks were added
+                    else:
+                        v = None
+                    chk.ob(rule_reenc, f"{ptag}: {T.show(rk)}.{c} = global_map[local_table_of_that_rank[old id]], global map read after all {nver} rank(s) were added", v, where,
+                           found=T.show(got)[:200], accepted=T.show(want),
+                           why="a skipped translation leaves local ids; another rank's local table or an early global map decodes to other strings; a cast back to the narrow dtype wraps")
+            adds_ok = state["adds"] == [T.P(f"LTAB:{p}") for _, p in ranks_paths]
+            gt = s.attrs.get("symbol_table")
+            if rule_reenc:
+                chk.ob(rule_reenc, f"{ptag}: the shared symbol table object is kept (symbols are only ever added to it; ids once handed out never change)", isinstance(gt, Obj) and gt.name == "GTABLE", where,
+                       found=getattr(gt, "name", repr(gt))[:60], accepted="self.symbol_table untouched",
+                       why="replacing the table (e.g. by a sorted rebuild) renumbers the symbols while the frames of ranks loaded earlier keep their old ids")
+        if rule_reenc:
+          chk.ob(rule_reenc, f"{tag}: the shared table is fed each requested rank's local symbols exactly once, in rank order", adds_ok, where, found=[T.show(a) if a is not None else None for a in state["adds"]],
+               accepted=[f"LTAB:{p}" for _, p in ranks_paths])
+
+    def self_obj(files):
+        return Obj("self", cls=(tm, "Trace"), attrs={"trace_files": dict(files), "traces": {}, "meta_data": {}, "symbol_table": Obj("GTABLE"), "parser_config": Obj("cfg")})
+    for mp_ in (False, True):
+        scenario(f"{TM}:Trace.parse_multiple_ranks", lambda mp_=mp_: {"self": self_obj({R0: "f0", R1: "f1"}), "ranks": [R0, R1], "use_multiprocessing": mp_, "use_memory_profiling": False},
+                 [(R0, "f0"), (R1, "f1")], f"parse_multiple_ranks({'pool' if mp_ else 'sequential'})")
+    # file map given in another order than the rank list: the association must follow the rank, not the dict order
+    scenario(f"{TM}:Trace.parse_multiple_ranks", lambda: {"self": self_obj({R1: "f1", R0: "f0"}), "ranks": [R0, R1], "use_multiprocessing": True, "use_memory_profiling": False},
+             [(R0, "f0"), (R1, "f1")], "parse_multiple_ranks(pool, file map in another order)")
+    scenario(f"{TM}:Trace.parse_single_rank", lambda: {"self": self_obj({R0: "f0"}), "rank": R0}, [(R0, "f0")], "parse_single_rank")
+    if rule_assoc:
+        chk.floor(rule_assoc, 7)
+    if rule_reenc:
+        chk.floor(rule_reenc, 14)
